@@ -157,6 +157,10 @@ def run(F, R, tier):
 
         def absent_value(n_, d=0):
             n_ = H.strip(n_)
+            # `read_count_arg(&args)?` read in place: the helper's own conditional, its Ok(..) wrapper looked through
+            while d < 8 and (H.is_try(n_) or (n_.get("k") == "block" and n_.get("expr") is not None and not [s_ for s_ in n_.get("stmts", []) if s_.get("k") != "let"])):
+                n_ = H.strip(H.untry(n_) if H.is_try(n_) else n_["expr"])
+                d += 1
             if d < 4 and H.is_local(n_) and H.local_id(n_) in lets_b:
                 return absent_value(lets_b[H.local_id(n_)], d + 1)
             if n_.get("k") == "if":
@@ -171,7 +175,7 @@ def run(F, R, tier):
                         return H.render(H.strip(a_["body"]))
             return None
         defaults = [absent_value(c["args"][1]) for c in reads_ if len(c.get("args", [])) == 2]
-        defaults = [d for d in defaults if d is not None]
+        defaults = [re.sub(r"^v1::Ok\((.*)\)$", r"\1", d) for d in defaults if d is not None]
         R.ob("read-all-default", "read(f) without a count reads up to usize::MAX bytes (both handle kinds)", [re.sub(r"^v1::Ok\((.*)\)$", r"\1", d) for d in defaults] == ["MAX"] * n_reads and n_reads == 2,
              "%s for %d reads" % (defaults, n_reads), F.loc(br))
 
@@ -209,6 +213,12 @@ def run(F, R, tier):
         # the match on the mode string: the one whose arms are string literals (helpers of the file inlined, so that a shared
         # `writer_handle_or_error(open_result)` reads as part of each arm)
         bo_body = H.body_inl(F, bo, keep=("new_reader", "new_writer"))
+        if any(c_.get("k") == "call" and not c_.get("callee") and not c_.get("ctor") and H.strip(c_.get("f") or {}).get("k") == "path"
+               and (H.strip(c_["f"]).get("res") or {}).get("r") == "fn" for c_ in H.walk(bo_body)):
+            # a helper was handed another function of the file as a value (`io_result_object(file, reader_object)`): with the
+            # helper read in place that function stands in call position; read it in place as well
+            skip_ = lambda c_: H.last(c_) in ("new_reader", "new_writer")
+            bo_body = H.inline_helpers(F, H.beta(bo_body), skip=skip_, max_size=400)
         # the local holding the mode: the one compared with string literals (by `==` or as the scrutinee of a match with
         # string-literal arms) most often
         votes = {}
@@ -297,12 +307,18 @@ def run(F, R, tier):
         for e_ in es:
             callers_of.setdefault(e_, set()).add(c_)
     addr_taken = {x for v in cg_.addr_taken.values() for x in v}
+    takers_of = {}
+    for q_, v_ in cg_.addr_taken.items():
+        for x_ in v_:
+            takers_of.setdefault(x_, set()).add(q_)
 
     def only_from_open(p, depth=0):
         if p == BF + "builtin_open":
             return True
-        cs = callers_of.get(p, set())
-        return bool(cs) and depth < 4 and p not in addr_taken and all(only_from_open(q, depth + 1) for q in cs)
+        # callers, and the functions that take its address (a function handed as a value is called by whoever receives it:
+        # it stays open()'s own as long as only open() and its helpers hand it out)
+        cs = callers_of.get(p, set()) | takers_of.get(p, set())
+        return bool(cs) and depth < 4 and all(only_from_open(q, depth + 1) for q in cs)
     R.ob("single-buffer-per-handle", "BufReader / BufWriter are constructed only in builtin_open", all(all(only_from_open(p) for p in v) for v in cons.values()) and len(cons) == 2,
          str({k: sorted(set(v)) for k, v in cons.items()}))
     # no buffer bypass: data read or written on a handle goes through its BufReader / BufWriter; reaching the underlying
